@@ -93,20 +93,20 @@ MC_QUICK = [
       'Write', 'Rename', 'UnlinkTmp']),
 ]
 MC_THOROUGH = [
-    ('converge', dict(insts=I2, mvers=[1, 2], pvers=[0, 1, 2], prior=[(1, 1), (1, 2), (2, 1), (2, 2), (1, 0)],
+    ('converge', dict(insts=I2, mvers=[1, 2], pvers=[0, 1, 2], prior=[(1, 1), (2, 2), (1, 0)],
                       newflags=[True, False]),
-     dict(prior=1, sync=1, env=1),
-     ['PriorFile', 'PriorTmp', 'UnlinkExtra', 'ReadPlacement', 'ReadManifest', 'Rename', 'SyncEnd', 'Notify']),
-    ('faults', dict(insts=I2, mvers=[1, 2], pvers=[1, 2], prior=[(1, 1)], newflags=[True]),
+     dict(prior=1, sync=1),
+     ['PriorFile', 'PriorTmp', 'UnlinkExtra', 'ReadPlacement', 'ReadManifest', 'Rename', 'SyncEnd']),
+    ('faults', dict(insts=I2, mvers=[1, 2], pvers=[1], prior=[(1, 1)], newflags=[True]),
      dict(conc=1, crash=1, err=1, sync=2),
-     ['Crash', 'IOError', 'CloseErr', 'Raise', 'Restart', 'SetMan', 'DelMan', 'Unplace', 'Place', 'SetPD',
-      'Write', 'Rename', 'UnlinkTmp']),
-    ('conc2', dict(insts=I2, mvers=[1, 2], pvers=[1], prior=[(1, 1)], newflags=[True, False]),
-     dict(conc=2, crash=1, sync=2, prior=1),
-     ['Crash', 'Restart', 'SetMan', 'DelMan', 'Unplace', 'Place']),
-    ('three', dict(insts=I3, mvers=[1, 2], pvers=[1], prior=[(1, 1)], newflags=[True]),
-     dict(conc=1, crash=1, sync=1),
-     ['Crash', 'UnlinkExtra', 'Rename']),
+     ['Crash', 'IOError', 'CloseErr', 'Raise', 'Restart', 'SetMan', 'DelMan', 'Unplace', 'Place',
+      'Write', 'Rename', 'UnlinkTmp', 'Notify']),
+    ('conc2', dict(insts=I2, mvers=[1, 2], pvers=[1, 2], prior=[(1, 1)], newflags=[True]),
+     dict(conc=2, sync=1),
+     ['SetMan', 'DelMan', 'Unplace', 'Place', 'SetPD', 'Rename']),
+    ('three', dict(insts=I3, mvers=[1], pvers=[1], prior=[(1, 1)], newflags=[True]),
+     dict(conc=1, crash=1, err=1, sync=1),
+     ['Crash', 'IOError', 'UnlinkExtra', 'Rename']),
 ]
 GEN = dict(insts=I3, mvers=[1, 2], pvers=[0, 1, 2], prior=[(1, 1), (2, 2), (1, 0), (2, 1)],
            newflags=[True, False])
@@ -137,7 +137,7 @@ def _mc(ctx, results):
 
 
 def _sim(ctx):
-    n_tlc = 100 if ctx.quick else 1200
+    n_tlc = 100 if ctx.quick else 600
     mod, cfg, files = mc_files('gen', bounds=GEN_BOUNDS, invariants=(), **GEN)
     behaviours, cmd = tlc.simulate(SPEC_DIR, mod, cfg, num=n_tlc, depth=48 if ctx.quick else 60,
                                    seed=ctx.seed * 31 + 12, procs=6 if ctx.quick else 12,
@@ -147,7 +147,7 @@ def _sim(ctx):
 
 def _gen(ctx, behaviours, cmd):
     """Step 2: behaviours of the same spec + seeded random histories."""
-    n_rnd = 100 if ctx.quick else 1200
+    n_rnd = 100 if ctx.quick else 600
     ctx.cmds.append(cmd)
     out = [('tlc', drv.from_labels(b)) for b in behaviours]
     rng = random.Random(ctx.seed * 7919 + 12)
@@ -211,7 +211,7 @@ def _record(ctx, hists):
     return traces
 
 
-def _validate(ctx, traces, timeout):
+def _validate_chunk(ctx, traces, timeout):
     work = tlc.scratch('verif-batch-')
     try:
         path = os.path.join(work, 'batch.json')
@@ -220,17 +220,32 @@ def _validate(ctx, traces, timeout):
         with open(path, 'w') as f:
             json.dump(batch, f)
         try:
-            verdicts, stats = tlc.validate(SPEC_DIR, 'NodeCacheTrace', 'NodeCacheTrace.cfg', path,
-                                           timeout=timeout)
+            return tlc.validate(SPEC_DIR, 'NodeCacheTrace', 'NodeCacheTrace.cfg', path, timeout=timeout)
         except tlc.MachineryError as err:
             if 'rc=143' not in str(err) and 'rc=137' not in str(err):
                 raise
             ctx.log('TLC was killed from outside (SIGTERM/SIGKILL); one retry')
-            verdicts, stats = tlc.validate(SPEC_DIR, 'NodeCacheTrace', 'NodeCacheTrace.cfg', path,
-                                           timeout=timeout)
+            return tlc.validate(SPEC_DIR, 'NodeCacheTrace', 'NodeCacheTrace.cfg', path, timeout=timeout)
     finally:
         shutil.rmtree(work, ignore_errors=True)
-    ctx.cmds.append(stats['cmd'])
+
+
+def _validate(ctx, traces, timeout, chunk_lines=60000):
+    """Step 4; batches of about chunk_lines lines, at most 4 TLC runs at a time."""
+    chunks, cur, n = [], [], 0
+    for t in traces:
+        cur.append(t)
+        n += len(t['lines'])
+        if n >= chunk_lines:
+            chunks.append(cur)
+            cur, n = [], 0
+    if cur:
+        chunks.append(cur)
+    with concurrent.futures.ThreadPoolExecutor(4) as pool:
+        results = list(pool.map(lambda c: _validate_chunk(ctx, c, timeout), chunks))
+    verdicts = [v for vs, _ in results for v in vs]
+    if results:
+        ctx.cmds.append(results[0][1]['cmd'])
     total = sum(len(t['lines']) - 1 for t in traces)
     if len(verdicts) != total:
         raise tlc.MachineryError('trace spec judged %d of %d lines' % (len(verdicts), total))
@@ -315,12 +330,12 @@ def run(ctx):
         # sampled cuts: 3 per history
         hists = [('cex', h, 'all') for h in cex] + [(s, h, '3') for s, h in gen]
     else:
-        # every k of every sync for the first 350 histories of each source, 6 sampled cuts for the rest
+        # every k of every sync for the first 120 histories of each source, 3 sampled cuts for the rest
         count = collections.Counter()
         hists = [('cex', h, 'all') for h in cex]
         for s, h in gen:
             count[s] += 1
-            hists.append((s, h, 'all' if count[s] <= 350 else '6'))
+            hists.append((s, h, 'all' if count[s] <= 120 else '3'))
     traces = _record(ctx, hists)
     ctx.log('recorded %d traces (%d with a cut), %d lines' % (
         len(traces), sum(1 for t in traces if t['src'].endswith('+cut')),
@@ -386,8 +401,8 @@ def _corruptions(lines):
             lambda l: l['post']['dir'].__setitem__('i1', dict(dot=False, kind='file', parsed=False, f={})))
     variant('atomic: final name produced by a call other than replace', 'C12.atomic', ren,
             lambda l: l.__setitem__('ev', 'Chmod') or l.__setitem__('args', []))
-    variant('drift: fchmod recorded before the write', 'drift.step', wr,
-            lambda l: l.__setitem__('ev', 'Chmod'))
+    variant('drift: close recorded where the model expects write/fchmod', 'drift.step', wr,
+            lambda l: l.__setitem__('ev', 'Close'))
     return out
 
 
